@@ -187,6 +187,7 @@ def _state(oc, sheet):
     o = _obs(sheet)
     line = "%s # %s # %s # %s # %s" % (oc, sheet_out(sheet), ",".join("%s=%s" % kv for kv in o["view"]),
                                        _forms(sheet), o["re_state"])
+    del o["re_state"], o["text"]      # only needed for the line; keeps the result lists small
     return line, o
 
 
@@ -436,6 +437,8 @@ def start_sheets(thorough):
         variants = [ns + [("S", a)], ns + [("S", a), ("S", b)]]
         if k % 3 == 0:
             variants.append([("C",)] + ns + [("S", a), ("M", [b, [("s", "t", "p:r", "z")]])])
+        if k % 2 == 1:   # prefixed selectors ONLY inside @media (in-use protection must look into the block)
+            variants.append(ns + [("S", [("s", "t", "e", "b")]), ("M", [a, b])])
         if k % 5 == 0:
             variants.append([("H",)] + ns + [("S", b)])
         if k % 7 == 0:   # undeclared prefix: the rule must be rejected; declaration after a rule set: ignored
@@ -469,7 +472,7 @@ def gen_cases(ctx, thorough):
         for o in full:
             cases.append((s, (o,)))
     n1 = len(cases)
-    sub = starts if thorough else [s for i, s in enumerate(starts) if i % 4 == 0]
+    sub = starts if thorough else [s for i, s in enumerate(starts) if i % 6 == 0]
     for s in sub:
         for o1, o2 in itertools.product(small, repeat=2):
             cases.append((s, (o1, o2)))
@@ -479,7 +482,7 @@ def gen_cases(ctx, thorough):
                 cases.append((s, t))
     n_exh = len(cases)
     rng = ctx.rng
-    for _ in range(20000 if thorough else 2500):
+    for _ in range(20000 if thorough else 1500):
         s = rng.choice(starts)
         k = rng.randint(3, 7)
         ops = []
@@ -581,7 +584,7 @@ def run(ctx):
                 "(after the parse and after every operation); non-trivial = histories in which at least one "
                 "operation changed the list of @namespace rules" % (
                     len(start_sheets(thorough)), len(op_alphabet(False)), len(op_alphabet(True)),
-                    "all" if thorough else "every 4th", n_exh),
+                    "all" if thorough else "every 6th", n_exh),
         "outcome_histogram": hist,
         "oracle_failures_matching_known_findings": counters.get("known", 0),
         "samples": sample,
